@@ -212,7 +212,10 @@ def run(tier, v):
         for segs in ([len(h) // 2, len(h) - len(h) // 2], [5, 60, len(h) - 65], [len(h) - 1, 1]):
             frames, p = [], 0
             for n in segs:
-                frames.append(tcp_frame(h[p:p + n], sport=41000 + len(pool_lines), src=(10, 9, 0, 1 + hi % 200), seq=1 + p))
+                # (the source port decides the link-layer trailer, see tcp_frame: let it vary independently of the division)
+                # the one-octet tail always travels without a trailer (port = 2 mod 6: a 55-octet frame), the other divisions with all kinds
+                sp_ = (41002 + 6 * len(pool_lines)) if segs[-1] == 1 else 41000 + len(pool_lines) + (hi // max(1, len(hellos) // (12 if tier == "thorough" else 4))) % 3
+                frames.append(tcp_frame(h[p:p + n], sport=sp_, src=(10, 9, 0, 1 + hi % 200), seq=1 + p))
                 p += n
             fe_lines.append({"id": len(fe_lines), "crate": "tls_par", "frames": frames, "matcher": False, "cfg": {}, "cap": 100, "parallel": {"workers": 2, "queue": 64, "batch": 4, "timeout_ms": 5}})
             fe_meta.append((hi, segs))
